@@ -15,6 +15,16 @@ def go_run(work, hists, mats):
     write_jsonl(work.path("scen.jsonl"), scenarios)
     rc, gout = go_test(work, ["common_test.go", "sim_test.go", "simrun_test.go", "assets_test.go"], "^TestVerifSim$",
                        {"VERIF_IN": work.path("scen.jsonl"), "VERIF_OUT": work.path("simout.jsonl")}, synctest=True)
+    global LAST_HANG
+    LAST_HANG = None
+    hp = work.path("simout.jsonl") + ".hang"
+    if os.path.exists(hp):
+        # the harness' real-time watchdog abandoned the run: scenario i did not end (goroutines that never stop, or blocked on a lock)
+        hg = json.load(open(hp))
+        os.remove(hp)
+        LAST_HANG = {"index": hg["i"], "history": hists[hg["i"]] if hg["i"] < len(hists) else None, "limit_s": hg["limit_s"],
+                     "stacks": hg["stacks"][-6000:]}
+        return False, gout, []
     if rc != 0 or not os.path.exists(work.path("simout.jsonl")):
         return False, gout, []
     outs = read_jsonl(work.path("simout.jsonl"))
@@ -38,11 +48,13 @@ def coq_run(work, items, expr, shard=10, tag="M4"):
     return m4.parse_hist_results(texts, len(items), shard)
 
 
+LAST_HANG = None
+
 MIS = "(fun h => map (fun m => (mi_step m, mi_what m)) (check_history ig fixed h))"
 
 
 def run_property(prop, tier, seed, prop_files, coq_targets, profile, monitor, n_quick, n_thorough,
-                 pair_restart=False, len_range=(4, 14), assumptions=None, extra=None):
+                 pair_restart=False, len_range=(4, 14), assumptions=None, extra=None, fixed=None):
     res = Result(prop, tier, seed)
     work = Work(prop)
     try:
@@ -63,6 +75,11 @@ def run_property(prop, tier, seed, prop_files, coq_targets, profile, monitor, n_
         rnd = random.Random(seed)
         n = n_quick if tier == "quick" else n_thorough
         hists, mats, ks = [], [], []
+        for h in (fixed or []) if not pair_restart else []:
+            # directed histories (run first): the request matrix asks every bound host x a path under every bound prefix
+            mx = m4.matrix(rnd, h, 8)
+            hists.append(h)
+            mats.append([mx for _ in h])
         for _ in range(n):
             h = m4.gen_history(rnd, rnd.randint(*len_range), profile)
             if (profile or {}).get("rollout_template") and rnd.random() < 0.5:
@@ -96,6 +113,18 @@ def run_property(prop, tier, seed, prop_files, coq_targets, profile, monitor, n_
                 hists.append(h)
                 mats.append(m)
         harness_ok, gout, outs = go_run(work, hists, mats)
+        if LAST_HANG and prop == "C06":
+            # "nothing keeps running on its behalf": a history after which the proxy's goroutines never stop (the virtual clock
+            # runs on for ever) is a failing input of C06 - the history is the replay, the goroutine stacks say what still runs
+            res.coverage.update({"evaluations": len(hists), "distinct_nontrivial": len(hists), "rule": "see a passing run",
+                                 "samples": [], "correspondence": {"histories": len(hists), "did_not_end": LAST_HANG["index"]}})
+            res.violation("hang-%d" % LAST_HANG["index"], {
+                "property": prop, "seed": seed, "tier": tier,
+                "what": "after this command history the proxy keeps something running for ever (the scenario does not end on the virtual "
+                        "clock within %d s of real time): goroutine stacks attached" % LAST_HANG["limit_s"],
+                "case": json.loads(json.dumps({"history": LAST_HANG["history"]}, default=lambda b: b.decode("latin1"))),
+                "stacks": LAST_HANG["stacks"]})
+            return res.finish()
         results = []
         if harness_ok and ok:
             terms = [m4.history_term(h, m, o) for h, m, o in zip(hists, mats, outs)]
@@ -163,6 +192,8 @@ def run_property(prop, tier, seed, prop_files, coq_targets, profile, monitor, n_
             pl = payload(disagree[0], what) if disagree else {"property": prop, "what": what, "seed": seed, "tier": tier}
             if not harness_ok:
                 pl["harness_output"] = gout[-3000:]
+                if LAST_HANG:
+                    pl["history_that_did_not_end"] = json.loads(json.dumps(LAST_HANG, default=lambda b: b.decode("latin1")))
             if not proofs_ok:
                 pl["coq_output"] = (blog + pa)[-3000:]
             res.violation("broken", pl, no_input=True)
